@@ -48,6 +48,9 @@ let () =
         | [] -> ()
         | "O" :: rest -> let p, rest = take dim rest in
           c := set_origin n !c (Stdlib.List.map rd p); go rest
+        | ("SE" | "IT") :: rest -> let e, rest = take dim rest in
+          let c' = set_end n !c (Stdlib.List.map rd e) in
+          emit_cast c'; c := after_cast n c'; go rest
         | "E" :: rest -> let e, rest = take dim rest in
           let c' = set_end n !c (Stdlib.List.map rd e) in
           emit_cast c'; c := after_cast n c'; go rest
